@@ -214,6 +214,28 @@ def ownership_case(src: str):
             if snap(R) != rb:
                 return True, (f"{name}({src if name == 'substitute' else ''}{', ' if name == 'substitute' else ''}{mk()!r}) keeps the "
                               f"caller's container: mutating the value afterwards changes the schema built from it: {rb!r} -> {snap(R)!r}")[:700]
+    # repeating an operation on equal inputs gives equal results regardless of what was executed in between: values that
+    # compare equal but are of different kinds (True / 1 / 1.0, 0 / False / 0.0 / -0.0, '1' / b'1') substituted one after
+    # the other into untyped positions -- each result must describe *its* value (memoisation keyed by == would not)
+    import math as _m
+
+    def kind(x):
+        return (type(x).__name__, _m.copysign(1.0, x) if isinstance(x, float) else 0)
+    alikes = [True, 1, 1.0, False, 0, 0.0, -0.0, "1", b"1"]
+    schema = N.schema
+    for untyped, wrap in ((schema.list, lambda x: [x]), (schema.dict, lambda x: {"k": x}), (schema.any, lambda x: x),
+                          (schema.list([schema.none, ...]), lambda x: [None, x])):
+        for order in (alikes, list(reversed(alikes))):
+            for x in order:
+                try:
+                    R = substitute(untyped, wrap(x))
+                    g = fake(R)
+                except Exception:
+                    continue
+                leaf = g[-1] if isinstance(g, list) else (g["k"] if isinstance(g, dict) else g)
+                if validate(R, wrap(x)).has_errors() or kind(leaf) != kind(x) or leaf != x:
+                    return True, (f"substitute({untyped!r}, {wrap(x)!r}) after equal-comparing values of other kinds were substituted "
+                                  f"gives {R!r}, which does not describe its value (generates {g!r})")[:700]
     return False, "operands and values unchanged"
 
 
